@@ -176,6 +176,7 @@ func Main() {
 			runSeq(e, rng, geti("ops", 60), geti("rounds", 2))
 		case "conc":
 			runConc(e, rng, geti("histories", 4), geti("ops", 30))
+			runResetRace(e, rng, geti("resetrace", 300))
 		case "lock":
 			runLock(e, rng, geti("stress", 4), params["real"] == "1")
 		case "dfs":
